@@ -83,6 +83,22 @@ func symxC11B() {
 	b2 := symxNewBroker(2, 1)
 	f := p.front(&symxAuth{mountPoint: "m", ids: []string{"sid", "sid2"}})
 	c := symxNewConn()
+	if rt.Bool("connack_write_fails") {
+		// the connection breaks while the broker answers the CONNECT
+		c.failWrite = true
+		f.connect(c, symxConnectBytes("cid", 30, "", nil, nil, 0, false))
+		rt.Quiesce()
+		for _, payload := range rt.Drain(b.bq) {
+			b2.state.Distributor().NotifyMsg(payload)
+		}
+		rt.Assert(b.local.Get("sid") == nil, "C11.removed_from_registry")
+		rt.Assert(c.isClosed(), "C11.connection_closed")
+		rt.Assert(len(b.state.SessionMetadatas().All()) == 0 && len(b2.state.SessionMetadatas().All()) == 0, "C11.session_record_gone_everywhere")
+		b.cancel()
+		b2.cancel()
+		rt.Quiesce()
+		return
+	}
 	err := f.connect(c, symxConnectBytes("cid", 30, "", nil, nil, 0, false))
 	rt.Assert(err == nil, "C11.connect_accepted")
 	rt.Quiesce()
